@@ -35,6 +35,7 @@ import (
 	"net/http"
 	"net/http/httptest"
 	"os"
+	"runtime"
 	"runtime/debug"
 	"strings"
 	"sync"
@@ -51,27 +52,40 @@ import (
 )
 
 type vc15PCCase struct {
-	Ice    string          `json:"ice"`
-	Broker string          `json:"broker"`
-	DC     string          `json:"dc"`
-	Expect json.RawMessage `json:"expect"`
+	Ice      string            `json:"ice"`
+	Broker   string            `json:"broker"`
+	DC       string            `json:"dc"`
+	Fp       string            `json:"fp"`       // bridge fingerprint class: empty | valid | odd | nonhex | wronglen | -
+	Attempts int               `json:"attempts"` // consecutive attempts on the SAME BrokerChannel
+	Expects  []json.RawMessage `json:"expects"`  // per attempt, as printed by TLC
 }
 
-type vc15PCResult struct {
-	Ice    string          `json:"ice"`
-	Broker string          `json:"broker"`
-	DC     string          `json:"dc"`
-	Expect json.RawMessage `json:"expect"`
-	Result string          `json:"result"` // peer | err | panic | both | neither
-	Events []string        `json:"events"`
-	Err    string          `json:"err,omitempty"`
-	Panic  string          `json:"panic,omitempty"`
+// vc15PCAttempt is what one attempt on the channel gave.
+type vc15PCAttempt struct {
+	Result string   `json:"result"` // peer | err | panic | both | neither | hang
+	Events []string `json:"events"`
+	Err    string   `json:"err,omitempty"`
+	Panic  string   `json:"panic,omitempty"`
 	// PanicIn is "event-listener/<event type>" when the panic was raised while
 	// the ptEventLogger mirror was printing an event.
 	PanicIn  string   `json:"panic_in,omitempty"`
 	Contract []string `json:"contract,omitempty"` // violations of the general event contract
 	Stack    string   `json:"stack,omitempty"`
+	HangAt   string   `json:"hang_at,omitempty"` // where the attempt is parked when it did not return
 	WallMs   int64    `json:"wall_ms"`
+}
+
+type vc15PCResult struct {
+	Ice      string            `json:"ice"`
+	Broker   string            `json:"broker"`
+	DC       string            `json:"dc"`
+	Fp       string            `json:"fp"`
+	Expects  []json.RawMessage `json:"expects"`
+	Attempts []vc15PCAttempt   `json:"attempts"`
+	End      string            `json:"end"`      // Peers.End after the attempts: ok | hang | panic:<text> | skipped
+	NatLock  string            `json:"nat_lock"` // BrokerChannel.SetNATType after the attempts: ok | hang | skipped
+	Harness  string            `json:"harness,omitempty"`
+	WallMs   int64             `json:"wall_ms"`
 }
 
 // vc15PTLogger mirrors client/snowflake.go:
@@ -239,14 +253,41 @@ func vc15Answer(offer string, open bool, keep *[]*webrtc.PeerConnection, mu *syn
 	return out, err
 }
 
+// vc15ParkedAt looks for a goroutine parked in BrokerChannel's mutex or elsewhere in the attempt.
+func vc15ParkedAt() string {
+	buf := make([]byte, 1<<20)
+	n := runtime.Stack(buf, true)
+	for _, blk := range strings.Split(string(buf[:n]), "\n\n") {
+		if strings.Contains(blk, "(*BrokerChannel).Negotiate") && strings.Contains(blk, "sync.(*Mutex).Lock") {
+			return "Negotiate@channel-lock"
+		}
+	}
+	return "elsewhere"
+}
+
+func (e *vc15Events) reset() {
+	e.mu.Lock()
+	e.evs, e.contract = nil, nil
+	e.mu.Unlock()
+}
+
 func vc15RunPCCase(c vc15PCCase, stunURL string) (res vc15PCResult) {
-	res = vc15PCResult{Ice: c.Ice, Broker: c.Broker, DC: c.DC, Expect: c.Expect, Events: []string{}}
+	res = vc15PCResult{Ice: c.Ice, Broker: c.Broker, DC: c.DC, Fp: c.Fp, Expects: c.Expects, End: "skipped", NatLock: "skipped"}
 	t0 := time.Now()
+	defer func() { res.WallMs = time.Since(t0).Milliseconds() }()
 	var keep []*webrtc.PeerConnection
 	var mu sync.Mutex
+	var hmu sync.Mutex
 	harnessErr := ""
 	srv := httptest.NewServer(http.HandlerFunc(func(w http.ResponseWriter, r *http.Request) {
 		body, _ := ioutil.ReadAll(r.Body)
+		// like the real broker, look at the poll first: one it cannot decode
+		// (e.g. a fingerprint that is not 20/32 bytes of hex) is refused
+		req, derr := messages.DecodeClientPollRequest(body)
+		if derr != nil {
+			w.WriteHeader(http.StatusBadRequest)
+			return
+		}
 		switch c.Broker {
 		case "non200":
 			w.WriteHeader(http.StatusServiceUnavailable)
@@ -263,15 +304,11 @@ func vc15RunPCCase(c vc15PCCase, stunURL string) (res vc15PCResult) {
 		case "bad_sdp":
 			w.Write([]byte(`{"answer":"{\"type\":\"answer\",\"sdp\":\"this is not sdp\"}"}`))
 		case "good":
-			req, err := messages.DecodeClientPollRequest(body)
-			if err != nil {
-				harnessErr = "poll request does not decode: " + err.Error()
-				w.WriteHeader(http.StatusBadRequest)
-				return
-			}
 			ans, err := vc15Answer(req.Offer, c.DC == "opens", &keep, &mu)
 			if err != nil {
+				hmu.Lock()
 				harnessErr = "answerer: " + err.Error()
+				hmu.Unlock()
 				w.WriteHeader(http.StatusInternalServerError)
 				return
 			}
@@ -308,48 +345,119 @@ func vc15RunPCCase(c vc15PCCase, stunURL string) (res vc15PCResult) {
 	case "turn_nocred":
 		addrs = []string{"turn:192.0.2.2:3478"}
 	}
+	fps := map[string]string{"empty": "", "-": "", "valid": "2B280B23E1107BB62ABFC40DDCC8824814F80A72",
+		"odd": "2B280B23E1107BB62ABFC40DDCC8824814F80A7", "nonhex": "ZZ280B23E1107BB62ABFC40DDCC8824814F80A72", "wronglen": "2B280B23E1107BB6"}
 	rv, err := newHTTPRendezvous(url, "", &http.Transport{ResponseHeaderTimeout: 15 * time.Second})
 	if err != nil {
-		res.Result, res.Err = "harness", err.Error()
+		res.Harness = err.Error()
 		return
 	}
-	broker := &BrokerChannel{Rendezvous: rv, keepLocalAddresses: true, natType: "unknown"}
+	// ONE channel for all attempts, configured as newBrokerChannelFromConfig does
+	broker := &BrokerChannel{Rendezvous: rv, keepLocalAddresses: true, natType: "unknown", BridgeFingerprint: fps[c.Fp]}
 	disp, evs, ptl := vc15Wire()
 	dialer := NewWebRTCDialerWithEvents(broker, parseIceServers(addrs), 1, disp)
+	peers, err := NewPeers(dialer)
+	if err != nil {
+		res.Harness = err.Error()
+		return
+	}
+	limit := 8 * time.Second
+	if c.Broker == "good" {
+		limit += DataChannelTimeout
+	}
 
-	func() {
+	// attempt 1 calls the dialer directly (so that a peer returned together with
+	// an error is seen); the following attempts go through the real Peers.Collect,
+	// as connectLoop's retries do, and are followed by Peers.End.
+	for i := 0; i < c.Attempts; i++ {
+		evs.reset()
+		cur := &vc15PCAttempt{Events: []string{}}
+		ta := time.Now()
+		done := make(chan struct{})
+		go func(i int, at *vc15PCAttempt) {
+			defer close(done)
+			defer func() {
+				if r := recover(); r != nil {
+					at.Result = "panic"
+					at.Panic = fmt.Sprint(r)
+					at.Stack = string(debug.Stack())
+					if t := ptl.inProgress(); t != "" {
+						at.PanicIn = "event-listener/" + t
+					}
+				}
+			}()
+			var peer *WebRTCPeer
+			var err error
+			if i == 0 {
+				peer, err = dialer.Catch()
+			} else {
+				peer, err = peers.Collect()
+			}
+			switch {
+			case peer != nil && err == nil:
+				at.Result = "peer"
+				if i == 0 {
+					peer.Close()
+				}
+			case peer == nil && err != nil:
+				at.Result = "err"
+				at.Err = err.Error()
+			case peer != nil:
+				at.Result = "both"
+				at.Err = err.Error()
+			default:
+				at.Result = "neither"
+			}
+		}(i, cur)
+		hung := false
+		select {
+		case <-done:
+		case <-time.After(limit):
+			hung = true
+		}
+		var at vc15PCAttempt
+		if hung {
+			at = vc15PCAttempt{Result: "hang", Events: evs.snapshot(), HangAt: vc15ParkedAt()}
+		} else {
+			at = *cur
+			at.Events = evs.snapshot()
+			at.Contract = evs.violations()
+		}
+		at.WallMs = time.Since(ta).Milliseconds()
+		res.Attempts = append(res.Attempts, at)
+		if hung || at.Result == "panic" {
+			break
+		}
+	}
+	// End must return whatever the attempts did (bounded: nothing is in flight
+	// unless an attempt hangs, and then that is the finding)
+	endc := make(chan string, 1)
+	go func() {
 		defer func() {
 			if r := recover(); r != nil {
-				res.Result = "panic"
-				res.Panic = fmt.Sprint(r)
-				res.Stack = string(debug.Stack())
-				if t := ptl.inProgress(); t != "" {
-					res.PanicIn = "event-listener/" + t
-				}
+				endc <- "panic:" + fmt.Sprint(r)
 			}
 		}()
-		peer, err := dialer.Catch()
-		switch {
-		case peer != nil && err == nil:
-			res.Result = "peer"
-			peer.Close()
-		case peer == nil && err != nil:
-			res.Result = "err"
-			res.Err = err.Error()
-		case peer != nil:
-			res.Result = "both"
-			res.Err = err.Error()
-		default:
-			res.Result = "neither"
-		}
+		peers.End()
+		endc <- "ok"
 	}()
-	res.Events = evs.snapshot()
-	res.Contract = evs.violations()
-	if harnessErr != "" {
-		res.Result = "harness"
-		res.Err = harnessErr
+	select {
+	case res.End = <-endc:
+	case <-time.After(5 * time.Second):
+		res.End = "hang"
 	}
-	res.WallMs = time.Since(t0).Milliseconds()
+	// the other user of the channel lock
+	natc := make(chan struct{})
+	go func() { broker.SetNATType("unknown"); close(natc) }()
+	select {
+	case <-natc:
+		res.NatLock = "ok"
+	case <-time.After(3 * time.Second):
+		res.NatLock = "hang"
+	}
+	hmu.Lock()
+	res.Harness = harnessErr
+	hmu.Unlock()
 	return
 }
 
@@ -409,6 +517,7 @@ type vc15CountingRendezvous struct {
 	gate        chan struct{} // non-nil: the first Exchange parks here
 	inFlight    int32
 	answerFirst bool // the first Exchange is answered by a real peer that then goes away
+	decode      bool // refuse a poll that does not decode, like the real broker
 	note        string
 }
 
@@ -418,6 +527,11 @@ func (r *vc15CountingRendezvous) Exchange(enc []byte) ([]byte, error) {
 		atomic.StoreInt32(&r.inFlight, 1)
 		<-r.gate
 		atomic.StoreInt32(&r.inFlight, 0)
+	}
+	if r.decode {
+		if _, err := messages.DecodeClientPollRequest(enc); err != nil {
+			return nil, fmt.Errorf("verif: broker refuses the poll: %v", err)
+		}
 	}
 	if n == 1 && r.answerFirst {
 		req, err := messages.DecodeClientPollRequest(enc)
@@ -469,14 +583,20 @@ type vc15LoopResult struct {
 // Session.Close()) or the way a failing packet conn takes the session down;
 // the harness reaches the session / packet conn through the SnowflakeConn's
 // fields.  The obligations after Close are the same.
-func vc15LoopScenario(name string, inFlight bool, max int, dcNever bool, kill string) (res vc15LoopResult) {
+//
+// fp != "": the channel is configured with that (invalid) bridge fingerprint, the
+// rendezvous refuses polls it cannot decode like the real broker; the scenario
+// waits for connectLoop's RETRY on the same BrokerChannel (second reported
+// rendezvous failure, ReconnectTimeout after the first) and then closes.
+func vc15LoopScenario(name string, inFlight bool, max int, dcNever bool, kill string, fp string) (res vc15LoopResult) {
 	res.Scenario = name
 	res.Killed = kill
 	rv := &vc15CountingRendezvous{answerFirst: dcNever}
 	if inFlight {
 		rv.gate = make(chan struct{})
 	}
-	broker := &BrokerChannel{Rendezvous: rv, keepLocalAddresses: true, natType: "unknown"}
+	rv.decode = fp != ""
+	broker := &BrokerChannel{Rendezvous: rv, keepLocalAddresses: true, natType: "unknown", BridgeFingerprint: fp}
 	// as NewSnowflakeClient does: one dispatcher for the dialer and the Transport;
 	// as the client binary does: transport.AddSnowflakeEventListener(<printing logger>)
 	disp := event.NewSnowflakeEventDispatcher()
@@ -504,8 +624,27 @@ func vc15LoopScenario(name string, inFlight bool, max int, dcNever bool, kill st
 	if dcNever {
 		want, wait = 2, DataChannelTimeout+8*time.Second
 	}
+	if fp != "" {
+		wait = ReconnectTimeout + 6*time.Second
+	}
+	countErr := func() (n int) {
+		for _, e := range rec.snapshot() {
+			if e == "rendezvous:err" {
+				n++
+			}
+		}
+		return
+	}
 	deadline := time.Now().Add(wait)
 	for time.Now().Before(deadline) {
+		if fp != "" {
+			// attempts are counted by their reports, not by Exchange calls
+			if countErr() >= 2 {
+				break
+			}
+			time.Sleep(5 * time.Millisecond)
+			continue
+		}
 		if inFlight && atomic.LoadInt32(&rv.inFlight) == 1 {
 			break
 		}
@@ -518,11 +657,19 @@ func vc15LoopScenario(name string, inFlight bool, max int, dcNever bool, kill st
 		res.Note = "harness: " + rv.note
 		return
 	}
-	if atomic.LoadInt32(&rv.calls) < 1 {
-		res.Note = "no rendezvous attempt within 8s"
-		return
+	if fp != "" {
+		if countErr() < 1 {
+			res.Note = "no rendezvous attempt reported within the wait"
+			return
+		}
+		res.Retried = countErr() >= 2
+	} else {
+		if atomic.LoadInt32(&rv.calls) < 1 {
+			res.Note = "no rendezvous attempt within 8s"
+			return
+		}
+		res.Retried = atomic.LoadInt32(&rv.calls) >= 2
 	}
-	res.Retried = atomic.LoadInt32(&rv.calls) >= 2
 	if !inFlight {
 		time.Sleep(300 * time.Millisecond) // let Collect return; the loop is now in its timer wait
 	}
@@ -530,11 +677,17 @@ func vc15LoopScenario(name string, inFlight bool, max int, dcNever bool, kill st
 	// peers" test plants one the same way; under the lock because connectLoop runs)
 	var spare *WebRTCPeer
 	if !inFlight {
-		spare = &WebRTCPeer{closed: make(chan struct{})}
-		conn.snowflakes.collectLock.Lock()
-		conn.snowflakes.activePeers.PushBack(spare)
-		conn.snowflakes.collectLock.Unlock()
-		res.HasSpare = true
+		// (TryLock: when a Collect is parked for good holding collectLock - itself a
+		// finding, seen as Close not returning - the harness must not park behind it)
+		for t := time.Now(); time.Since(t) < 300*time.Millisecond; time.Sleep(2 * time.Millisecond) {
+			if conn.snowflakes.collectLock.TryLock() {
+				spare = &WebRTCPeer{closed: make(chan struct{})}
+				conn.snowflakes.activePeers.PushBack(spare)
+				conn.snowflakes.collectLock.Unlock()
+				res.HasSpare = true
+				break
+			}
+		}
 	}
 	switch kill {
 	case "sess":
@@ -620,20 +773,22 @@ func TestVerifC15ConnectLoop(t *testing.T) {
 		max      int
 		dcNever  bool
 		kill     string
+		fp       string
 	}
-	scs := []sc{{"close-during-timer-wait/max1", false, 1, false, ""}, {"close-during-rendezvous/max1", true, 1, false, ""},
-		{"close-during-timer-wait/max2", false, 2, false, ""}, {"close-during-rendezvous/max2", true, 2, false, ""},
-		{"dc-never-opens-then-retry/max1", false, 1, true, ""},
-		{"close-after-session-died/max2", false, 2, false, "sess"}, {"close-after-session-died/max1", false, 1, false, "sess"},
-		{"close-after-pconn-died/max2", false, 2, false, "pconn"},
-		{"close-during-rendezvous-after-session-died/max1", true, 1, false, "sess"}}
+	scs := []sc{{"close-during-timer-wait/max1", false, 1, false, "", ""}, {"close-during-rendezvous/max1", true, 1, false, "", ""},
+		{"close-during-timer-wait/max2", false, 2, false, "", ""}, {"close-during-rendezvous/max2", true, 2, false, "", ""},
+		{"dc-never-opens-then-retry/max1", false, 1, true, "", ""},
+		{"close-after-session-died/max2", false, 2, false, "sess", ""}, {"close-after-session-died/max1", false, 1, false, "sess", ""},
+		{"close-after-pconn-died/max2", false, 2, false, "pconn", ""},
+		{"close-during-rendezvous-after-session-died/max1", true, 1, false, "sess", ""},
+		{"invalid-fingerprint-retry-then-close/max1", false, 1, false, "", "not-a-hex-fingerprint"}}
 	results := make([]vc15LoopResult, len(scs))
 	var wg sync.WaitGroup
 	for i := range scs {
 		wg.Add(1)
 		go func(i int) {
 			defer wg.Done()
-			results[i] = vc15LoopScenario(scs[i].name, scs[i].inFlight, scs[i].max, scs[i].dcNever, scs[i].kill)
+			results[i] = vc15LoopScenario(scs[i].name, scs[i].inFlight, scs[i].max, scs[i].dcNever, scs[i].kill, scs[i].fp)
 		}(i)
 	}
 	wg.Wait()
